@@ -52,4 +52,50 @@ decreasing_by
   · simp only [List.length_cons]; omega
 
 end
+
+/-! ### QUIC: when is a datagram foreign to a session -/
+
+section
+variable {κ τ ο : Type}
+
+/-- the datagram `x` has nothing a session in state `s` recognises: not its 4-tuple (either direction); long header: its
+    non-empty DCID is none of the session's CIDs; short header: no non-empty CID of the session is a prefix of bytes 1.. -/
+structure Apart (M : QuicMachine κ τ ο) (s : QuicSess τ) (x : QIn κ) : Prop where
+  tuple : s.matches x.p = false
+  long : ∀ d v, x.h = .long d v → d ≠ [] → d ∉ M.clientCids s.st ∧ d ∉ M.serverCids s.st
+  short : x.h = .short → ∀ c, c ∈ M.clientCids s.st ∨ c ∈ M.serverCids s.st → c ≠ [] → ¬ c <+: x.p.payload.drop 1
+
+/-- at no moment of the run on `A` alone does a session exist to which a (parsable) datagram of `B` is not foreign -/
+def QuicSeparated (M : QuicMachine κ τ ο) (o : Opts) (A B : List (QIn κ)) : Prop :=
+  ∀ n, ∀ s ∈ quicRun M o [] (A.take n), ∀ x ∈ B, x.h ≠ .tooShort → Apart M s x
+
+end
+
+/-! ### what of a capture reaches which handler -/
+
+section
+variable {κ : Type}
+
+/-- the TCP packets `handle_packet` is called with, in order -/
+def tcpView (o : Opts) (items : List (Item κ)) : List Pkt :=
+  items.filterMap fun it => match classify o it with
+    | .tls p => some p
+    | _ => none
+
+/-- the key log after the capture: the keys of its DSBs, in order, appended -/
+def dsbKeys (o : Opts) (items : List (Item κ)) : List κ :=
+  items.flatMap fun it => match classify o it with
+    | .keys ks => ks
+    | _ => []
+
+/-- the calls of `handle_quic_packet`, each with the key log as it is when the datagram is read -/
+def quicView (o : Opts) : List κ → List (Item κ) → List (QIn κ)
+  | _, [] => []
+  | kl, it :: rest =>
+    match classify o it with
+    | .keys ks => quicView o (kl ++ ks) rest
+    | .quic p b0 r => ⟨kl, parseHeader1 b0 r, p⟩ :: quicView o kl rest
+    | _ => quicView o kl rest
+
+end
 end TLX.Spec.Demux
